@@ -234,8 +234,8 @@ def run_case(ctx, case):
         # after the first encoding and compare with the reference encoding of the updated program
         rng = ctx.rng
         instrs2 = [[m, codec.rand_values(rng, isa.TABLE[flav][m][1])] for m, _ in case["instrs"]]
-        for obj, (m, v) in zip(sub.instructions, instrs2):
-            codec.edit_in_place(obj, codec.mk_instr(fobj, flav, m, v))
+        for j_, (obj, (m, v)) in enumerate(zip(sub.instructions, instrs2)):
+            codec.edit_in_place(obj, codec.mk_instr(fobj, flav, m, v), named=j_ % 2 == 0)
         ctx.count("reencodings_after_update")
         # same instruction count, operands updated in place (what the NV transpiler and template filling do)
         ref2 = isa.encode_subroutine(flav, case["version"], case["app_id"], instrs2)
